@@ -70,6 +70,22 @@ func blocksOf(out string) []string {
 	return bl
 }
 
+// stallingWriter: the first write takes 300 ms, every 500th takes 20 ms (a terminal, a slow pipe).
+type stallingWriter struct {
+	buf bytes.Buffer
+	n   int
+}
+
+func (w *stallingWriter) Write(p []byte) (int, error) {
+	w.n++
+	if w.n == 1 {
+		time.Sleep(300 * time.Millisecond)
+	} else if w.n%500 == 0 {
+		time.Sleep(20 * time.Millisecond)
+	}
+	return w.buf.Write(p)
+}
+
 func init() {
 	props["C10/bigdoc"] = func(c *rep.Ctx) {
 		bounds := []int{4096, 32768, 65536, 1 << 20}
@@ -124,6 +140,51 @@ func init() {
 							c.Violation("C10|bigdoc|massive-call-did-not-return", fmt.Sprintf("document of %d bytes (boundary %d%+d)", len(doc), B, shift), B, nil)
 						}
 					}
+				}
+			}
+		}
+		// many roots against a consumer that stalls (the first write takes 300 ms, then every 500th write 20 ms): every
+		// stage of the pipeline fills up behind it; all blocks still arrive, intact, and the call returns nil
+		for _, roots := range []int{300, 3000, 12000} {
+			if !c.Take() || hung {
+				continue
+			}
+			var sb strings.Builder
+			for i := 0; i < roots; i++ {
+				fmt.Fprintf(&sb, "- r%06d\n  - k%06d\n  - l\n", i, i)
+			}
+			doc := sb.String()
+			want, _, _ := sut.Output(doc)
+			wb := blocksOf(want)
+			for _, op := range []string{"text", "dry"} {
+				sw := &stallingWriter{}
+				var err error
+				done := make(chan string, 1)
+				go func() {
+					done <- sut.Guard(func() {
+						opts := []gtree.Option{gtree.WithMassive(context.Background())}
+						if op == "dry" {
+							opts = append(opts, gtree.WithDryRun())
+						}
+						err = gtree.OutputFromMarkdown(sw, strings.NewReader(doc), opts...)
+					})
+				}()
+				select {
+				case pan := <-done:
+					c.Eval()
+					got := sw.buf.String()
+					okOut := false
+					if op == "text" {
+						okOut = strings.Join(blocksOf(got), "") == strings.Join(wb, "")
+					} else {
+						okOut = strings.Count(got, "directories,") == roots && strings.Count(got, "k0") == strings.Count(want, "k0")
+					}
+					if pan != "" || err != nil || !okOut {
+						c.Violation("C10|bigdoc|stalling-writer|"+op, fmt.Sprintf("%d roots, a writer that stalls: massive err=%v panic=%q, %d bytes written (simple mode: %d bytes of text)", roots, err, pan, len(got), len(want)), roots, nil)
+					}
+				case <-time.After(180 * time.Second):
+					hung = true
+					c.Violation("C10|bigdoc|massive-call-did-not-return", fmt.Sprintf("%d roots with a stalling writer", roots), roots, nil)
 				}
 			}
 		}
